@@ -356,9 +356,9 @@ def gen_model(rng: core.Rng, idx: int) -> Dict[str, Any]:
         fl = [(f"a{i}", "scalar", "int")]
         for j in range(rng.randint(0, 2)):
             # (Tuple[int, ...] columns are outside what the generator claims: ORMatic raises on the Ellipsis.  Models with an alternative
-            #  mapping keep to the older shapes, so that the open finding C04-a does not combine with the python-level rules.)
+            #  mapping carry no datetimes, so that the open finding C04-a does not combine with the python-level rule of C05-c.)
             fl.append((f"s{i}_{j}", "scalar", rng.choice(["int", "float", "str", "bool", "Optional[float]", "Optional[int]", "List[str]"] +
-                                                         ([] if altm else ["Set[int]", "Optional[datetime]"]))))
+                                                         ([] if (altm and i == 0) else ["Set[int]"]) + ([] if altm else ["Optional[datetime]"]))))
         outside = [m for m in names if m not in mro_of(n) and n not in mro_of(m)]
         for j in range(rng.randint(0, 2)):
             fl.append((f"r{i}_{j}", "one", rng.choice(outside) if outside and rng.chance(0.75) else rng.choice(names)))
@@ -367,9 +367,9 @@ def gen_model(rng: core.Rng, idx: int) -> Dict[str, Any]:
         for j in range(rng.randint(0, 2)):
             tg = [m for m in names if m != n]
             fl.append((f"l{i}_{j}", "many", rng.choice(tg)))
-            if not altm and rng.chance(0.25):
+            if not (altm and i == 0) and rng.chance(0.25):
                 tuples.append(f"l{i}_{j}")             # declared Tuple[T, ...]
-        if not altm:
+        if not (altm and i == 0):
             if rng.chance(0.3):
                 fl.append((f"n{i}", "scalar", "int"))
                 noinit.append(f"n{i}")                 # field(default=0, init=False): mapped, but no constructor argument
